@@ -70,6 +70,15 @@ func (w *world) obj(id int) interface{} {
 		r = true
 	}
 	var o interface{}
+	if n.gotype == 900 {
+		if r {
+			o = &RU{nodeBase{id: id, w: w}}
+		} else {
+			o = &AU{nodeBase{id: id, w: w}}
+		}
+		w.objs[id] = o
+		return o
+	}
 	switch w.strat3[n.gotype] {
 	case 'F':
 		o = newReflectObj(w, id, n.gotype)
@@ -274,6 +283,15 @@ func (w *world) resolve(id int, f *ggql.Field, args map[string]interface{}) (int
 	return nil, nil
 }
 
+// RU / AU: Go types no object type is ever bound to (graph nodes of type 900)
+type RU struct{ nodeBase }
+
+func (n *RU) Resolve(f *ggql.Field, args map[string]interface{}) (interface{}, error) {
+	return n.w.resolve(n.id, f, args)
+}
+
+type AU struct{ nodeBase }
+
 func echoValue(v interface{}) interface{} {
 	switch t := v.(type) {
 	case int32:
@@ -297,6 +315,9 @@ func (a *anyRes) Resolve(obj interface{}, f *ggql.Field, args map[string]interfa
 	}
 	if id, ok := nodeIDOf(obj); ok {
 		return a.w.resolve(id, f, args)
+	}
+	if u, ok := obj.(*AU); ok { // a data node whose Go type is bound to no object type
+		return a.w.resolve(u.id, f, args)
 	}
 	return nil, fmt.Errorf("resolver failed: not a data node")
 }
